@@ -97,6 +97,19 @@ func ClassProgram(g *G) *ClassCase {
 	if has("ratio") {
 		ms = append(ms, method{"half", "", "float64", "§ratio = §ratio/2 + 0.25\nreturn §ratio", true})
 	}
+	if g.Chance(60, "m-shadow-param") {
+		// a parameter named like a field shadows it; the field stays reachable through this
+		ms = append(ms, method{"setW", "w int", "int", "this.w = w\n§h = w + §h\nreturn w * 2", true})
+	}
+	if g.Chance(50, "m-shadow-local") {
+		ms = append(ms, method{"peek", "", "int", "title := 5\nh := title + §w\nreturn h + len(this.title)", false})
+	}
+	if g.Chance(50, "m-closure") {
+		ms = append(ms, method{"sumTo", "n int", "int", "acc := 0\nadd := func(v int) {\n\tacc += v + §w\n}\nfor i := 0; i < n; i++ {\n\tadd(i)\n}\ndefer func() {\n\t§h++\n}()\nreturn acc + §h", true})
+	}
+	if g.Chance(40, "m-self-link") {
+		ms = append(ms, method{"chain", "", "int", "if §next == nil {\n\t§next = &" + name + "{w: §w + 1}\n}\nreturn §next.w + §next.area()", true})
+	}
 	cntOrW := "w"
 	if has("cnt") {
 		cntOrW = "cnt"
@@ -127,6 +140,11 @@ func ClassProgram(g *G) *ClassCase {
 		}
 		return b.String()
 	}
+	for _, m := range ms {
+		if m.name == "chain" {
+			fields = append(fields, cfield{name: "next", typ: "*" + name, kind: "selfptr"})
+		}
+	}
 	var gox, gostruct, gomethods strings.Builder
 	types := "type point struct {\n\tx, y int\n}\n\ntype base struct {\n\tid int\n}\n"
 	// declarations that may precede the var block of a class file: imports, constants, types
@@ -142,10 +160,21 @@ func ClassProgram(g *G) *ClassCase {
 	gox.WriteString("var (\n")
 	fmt.Fprintf(&gostruct, "type %s struct {\n", name)
 	cc := &ClassCase{Name: name}
-	for _, f := range fields {
+	grouped := g.Chance(35, "grouped-fields") // `w, h int` on one line
+	for fi, f := range fields {
 		line := f.name + " " + f.typ
 		if f.embedded {
 			line = f.typ
+		}
+		if grouped && f.name == "w" && fi+1 < len(fields) && fields[fi+1].name == "h" {
+			cc.Fields = append(cc.Fields, ClassField{Name: "w", Type: "int"}, ClassField{Name: "h", Type: "int"})
+			cc.Labels = append(cc.Labels, "field=int", "field=int", "grouped-field-names")
+			gox.WriteString("\tw, h int\n")
+			gostruct.WriteString("\tw, h int\n")
+			continue
+		}
+		if grouped && f.name == "h" && fi > 0 && fields[fi-1].name == "w" {
+			continue
 		}
 		if f.tag != "" {
 			line += " " + f.tag
@@ -191,6 +220,8 @@ func ClassProgram(g *G) *ClassCase {
 			args = fmt.Sprintf("%q, %d", fmt.Sprintf("k%d", g.Intn(3, "key")), g.Intn(9, "v"))
 		case "move":
 			args = fmt.Sprintf("%d, %d", g.Intn(3, "dx"), g.Intn(3, "dy"))
+		case "setW", "sumTo":
+			args = fmt.Sprint(g.Intn(5, "n"))
 		}
 		if m.results == "" {
 			fmt.Fprintf(&use, "\t%s.%s(%s)\n", recv, m.name, args)
@@ -200,9 +231,13 @@ func ClassProgram(g *G) *ClassCase {
 			fmt.Fprintf(&use, "\tfmt.Println(%q, %s.%s(%s))\n", m.name, recv, m.name, args)
 		}
 	}
-	if has("link") {
+	if has("link") || has("next") {
 		// pointers print as addresses: dump the other fields one by one
-		use.WriteString("\tfmt.Println(c.w, c.h, c.title, c.link != nil, z.w, z.h, z.link != nil)\n")
+		if has("link") {
+			use.WriteString("\tfmt.Println(c.w, c.h, c.title, c.link != nil, z.w, z.h, z.link != nil)\n")
+		} else {
+			use.WriteString("\tfmt.Println(c.w, c.h, c.title, c.next != nil, z.w, z.h, z.next != nil)\n")
+		}
 	} else {
 		use.WriteString("\tfmt.Printf(\"%+v\\n\", *c)\n\tfmt.Printf(\"%+v\\n\", z)\n")
 	}
